@@ -22,6 +22,34 @@ LOAM = lambda rng: ["hyd", None, round(rng.uniform(0.12, 0.16), 3), round(rng.un
 
 def gen_case(rng, tier, idx):
     case = std_case(rng, PROFILE)
+    if idx % 4 == 1:
+        # basin irrigation: high in-season bunds kept ponded (constant depth / interval irrigation, initial ponding), lower or
+        # no bunds in the fallow period, off-season simulated, slowly draining uniform soils, dry weather around harvest
+        spec = case["spec"]
+        spec["off_season"] = True
+        if rng.random() < 0.5:
+            # puddled uniform clay: intake of a few mm/day only, so that the basin really stays flooded
+            wp = round(rng.uniform(0.25, 0.33), 3)
+            fc = round(wp + rng.uniform(0.1, 0.15), 3)
+            spec["soil"] = {"type": "custom", "kwargs": {"dz": [0.1] * 12, "cn": 77, "rew": 10},
+                            "layers": [["hyd", 3.2, wp, fc, round(fc + rng.uniform(0.03, 0.08), 3), rng.choice([2, 5, 10]), 100]]}
+            spec["iwc"] = {"wc_type": "Prop", "method": "Layer", "depth_layer": [1], "value": [rng.choice(["FC", "SAT"])]}
+        elif spec["soil"]["type"] not in ("Clay", "SiltClay", "SandyClay", "Paddy"):
+            spec["soil"] = {"type": rng.choice(["Clay", "SiltClay", "SandyClay", "Clay"]), "kwargs": {}, "layers": None}
+            spec["iwc"] = {"wc_type": "Prop", "method": "Layer", "depth_layer": [1], "value": [rng.choice(["FC", "SAT"])]}
+        spec["gw"] = None
+        spec["field"] = {"bunds": True, "z_bund": rng.choice([0.15, 0.2, 0.3]), "bund_water": rng.choice([0, 50, 100])}
+        spec["fallow_field"] = rng.choice([{"bunds": True, "z_bund": rng.choice([0.02, 0.05, 0.1])}, {"bunds": True, "z_bund": 0.05, "bund_water": 20}, None])
+        m = rng.choice([5, 5, 2])
+        spec["irr"] = {"method": m, "kwargs": ({"depth": rng.choice([10, 20, 30]), "MaxIrr": 40} if m == 5 else {"IrrInterval": 3, "MaxIrr": 60}), "schedule": None}
+        case["controller"] = None
+        w = spec["weather"]
+        w["events"] = [e for e in w.get("events", []) if e["kind"] not in ("storm", "wet_spell")]
+        from ..gen import season_spans
+        from ..spec import parse_date
+        off = (parse_date(spec["start"]) - parse_date(w["start"])).days
+        for a, b in season_spans(spec):
+            w["events"].append({"kind": "drought", "day": off + b - 20, "len": 60, "mag": 0.0})
     if idx % 4 == 2:
         # strongly contrasting layers (clay/sand/loam in PRNG order) with a shallow first layer, and strategies that write
         # water contents computed from layer properties (net irrigation with pre-irrigation, threshold irrigation)
